@@ -217,7 +217,7 @@ pub fn run(ctx: &Ctx) -> i32 {
         "exploration",
         "tape -> dsl library in the image of a faithful parser (gen_syntax) -> harness printer (alternative productions from the tape, mild layout) -> parse_program must return the same library (derived ==, plus case-sensitive identifier spellings in visit order). Exhaustive grid: all 225 ordered binary operator pairs x both association shapes, all unary/binary mixes, 225 operator triples x 3 shapes. Non-trivial: >= 1 declaration and >= 3 distinct grammar productions exercised; distinct by hash of the program text.",
     );
-    let gates = ctx.gates();
+    let gates = ctx.gates_for("C01");
     run_grid(&mut rep, &gates);
     rep.exhaustive = Some(false);
     rep.extra.insert("expression_grid_exhaustive".into(), json!(true));
@@ -266,7 +266,7 @@ pub fn witness(w: &Value) -> Result<(), String> {
 }
 
 pub fn replay(ctx: &Ctx, v: &Value) -> i32 {
-    let gates = ctx.gates();
+    let gates = ctx.gates_for("C01");
     let r = match v["check"].as_str().unwrap_or("") {
         "random-program" => {
             let tape: Vec<u8> = v["tape"].as_array().map(|a| a.iter().map(|x| x.as_u64().unwrap_or(0) as u8).collect()).unwrap_or_default();
